@@ -430,6 +430,14 @@ pub fn run(ctx: &mut Ctx) {
     ctx.run_cases("pst13", n / 4, |ctx, _i, rng| pst13(ctx, rng));
     ctx.run_cases("ipa", n, |ctx, _i, rng| ipa(ctx, rng));
     ctx.run_cases("hyrax", n / 2, |ctx, _i, rng| hyrax(ctx, rng));
+    // hiding at sizes beyond a thousand coefficients
+    set_large(true);
+    let nl = if ctx.is_thorough() { 6 } else { 2 };
+    ctx.run_cases("marlin/large", nl, |ctx, _i, rng| kzg_family::<E381, MarlinS<E381>>(ctx, rng, false));
+    ctx.run_cases("sonic/large", nl, |ctx, _i, rng| kzg_family::<E381, SonicS<E381>>(ctx, rng, true));
+    ctx.run_cases("ipa/large", nl, |ctx, _i, rng| ipa(ctx, rng));
+    ctx.run_cases("hyrax/large", nl, |ctx, _i, rng| hyrax(ctx, rng));
+    set_large(false);
     if ctx.is_thorough() {
         ctx.run_cases("marlin-377", n / 4, |ctx, _i, rng| kzg_family::<E377, MarlinS<E377>>(ctx, rng, false));
     }
